@@ -91,19 +91,29 @@ def runner_tok(r):
                      lv(r.get("atb", [])), lv(r.get("atl", [])), lv(r.get("trd", []))])
 
 
+def stream_order(sc):
+    """market indices in the order their streams are created (strategy registration order, each strategy's files sorted by name)"""
+    order = []
+    for s_ in sc["strategies"]:
+        for mi in sorted(s_["markets"], key=lambda i: sc["markets"][i]["id"]):
+            if mi not in order:
+                order.append(mi)
+    return order
+
+
 def merged_updates(sc):
-    """the order in which the framework processes updates: markets sequentially (no event groups) or
+    """the order in which the framework processes updates: streams sequentially in creation order (no event groups) or
     merged by publish time within an event group (stable, pop-head/append-back as simulation.run does)"""
     ms_ = sc["markets"]
+    so = stream_order(sc)
     if not sc.get("event_processing"):
         out = []
-        for mi, m in enumerate(ms_):
-            out += [(mi, ui) for ui in range(len(m["updates"]))]
+        for mi in so:
+            out += [(mi, ui) for ui in range(len(ms_[mi]["updates"]))]
         return out
-    # group by event in market order (streams are created in sorted path order = market order here)
     groups = {}
-    for mi, m in enumerate(ms_):
-        groups.setdefault(m["event"], []).append(mi)
+    for mi in so:
+        groups.setdefault(ms_[mi]["event"], []).append(mi)
     out = []
     for ev, mis in groups.items():
         if len(mis) == 1:
